@@ -292,10 +292,57 @@ def stage_mci_lr(work, tier, seed):
                     f.write(json.dumps(d) + "\n")
                     n += 1
     r = run.run_tlc(work, "MCI_LR", "MCI_LR.cfg",
-                    {"DUMPS": allp + ".dumps.ndjson", "MAXLEN": str(maxlen), "REPLAY": "0"},
+                    {"DUMPS": allp + ".dumps.ndjson", "MAXLEN": str(maxlen), "REPLAY": "1"},
                     workers=run.NCPU, timeout=3000)
-    return {"verdicts": r["verdicts"], "gtext": gtext, "states": r["distinct"], "transitions": r["states"],
-            "ntables": n, "maxlen": maxlen,
+    # S -> I: every finished behaviour TLC found (table, token string, predicted status) is
+    # replayed into the REAL compiler + LRParser and validated by TraceLR
+    beh = {}
+    for line in r["out"].split("\n"):
+        if line.startswith('<<"REPLAY", '):
+            b = json.loads(json.loads(line[len('<<"REPLAY", '):].rstrip()[:-2]))
+            beh.setdefault(b["id"], []).append(b)
+    gof = {}
+    for gid, g, tags in corpus(tier, seed):
+        gof[gid] = g
+    rcases = []
+    rinputs = {}
+    pred = {}
+    rng = random.Random(seed)
+    cap = 60 if tier == "quick" else 400
+    for cid, bs in beh.items():
+        gid, tt = cid.rsplit("|", 1)
+        g = gof[gid]
+        names = [t[0] for t in g["terms"]]
+        if len(bs) > cap:
+            bs = rng.sample(bs, cap)
+        ins = []
+        for iid, b in enumerate(bs, 1):
+            toks = [names[t - 1] for t in b["w"]]
+            if b["status"] == "err" and b["la"] > 0:
+                toks.append(names[b["la"] - 1])
+            text_in, lex = G.render_input(g, toks, None)
+            ins.append({"iid": iid, "text": text_in, "lex": lex, "partial": False, "meta": {"kind": "replay"}})
+            pred["%s#%d" % (cid, iid)] = b["status"]
+            rinputs["%s#%d" % (cid, iid)] = [text_in, lex]
+        nod = tab["nodis"].get(cid)
+        rcases.append({"id": cid, "grammar": gtext[cid], "cfg": {"algo": "lr", "tt": tt},
+                       "meta": {"nodis": bool(nod), "plain": True}, "inputs": ins})
+    rp = run.run_vdrive(work, "mci_lr_replay", rcases)
+    envs = [{"DUMPS": p + ".dumps.ndjson", "TRACES": p + ".traces.ndjson"} for p in rp
+            if os.path.getsize(p + ".traces.ndjson") > 0]
+    rs = run.run_tlc_shards(work, "TraceLR", "TraceLR.cfg", envs)
+    tv = [v for x in rs for v in x["verdicts"]]
+    div = ["MCI_LR predicts %s, real parser %s: %s #%s" % (pred.get("%s#%d" % (v["id"], v["iid"])),
+                                                            "ok" if v["mon"]["ok"] else "err", v["id"], v["iid"])
+           for v in tv if pred.get("%s#%d" % (v["id"], v["iid"])) in ("ok", "err")
+           and (pred["%s#%d" % (v["id"], v["iid"])] == "ok") != v["mon"]["ok"]]
+    return {"verdicts": r["verdicts"], "replay_verdicts": [v for v in tv if any(v["mon"][k] for k in ("c01", "c02", "c12", "c13", "c14", "c15"))],
+            "inputs": {k: rinputs[k] for k in list(rinputs)[:0]} if False else {},
+            "divergences": div[:20],
+            "nreplayed": len(tv), "nbehaviours": sum(len(b) for b in beh.values()),
+            "gtext": gtext, "states": r["distinct"] + sum(x["distinct"] for x in rs),
+            "transitions": r["states"] + sum(x["states"] for x in rs),
+            "ntraces": len(tv), "ntables": n, "maxlen": maxlen,
             "samples": [dict(table=c["id"], grammar=c["grammar"]) for c in cases[:2]]}
 
 
@@ -1733,7 +1780,7 @@ def coverage(prop, res, stage_names):
                                                    "ntables", "maxlen", "wall", "nambiguous", "ninscope", "nlrglr",
                                                    "ncells_exercised", "ngrammars_with_conflicts",
                                                    "mc_lex_configurations", "mc_lex_ok", "nmulti_survivors",
-                                                   "outcomes", "mc_pipeline_ok", "mc_regen_ok", "nregenerations", "nkeys", "nsugar_uses", "nrejected", "programs", "nqueries", "nruns", "npaired", "ngenerated", "nshapes", "ncombos", "nmodel_runs", "nautomata_reproduced", "maxstates") if k in r}
+                                                   "outcomes", "mc_pipeline_ok", "mc_regen_ok", "nregenerations", "nkeys", "nsugar_uses", "nrejected", "programs", "nqueries", "nruns", "npaired", "ngenerated", "nshapes", "ncombos", "nmodel_runs", "nautomata_reproduced", "maxstates", "nreplayed", "nbehaviours") if k in r}
         cov["per_stage"][st]["divergences"] = len(r.get("divergences", []))
     cov["states"] = max(cov["states"], 1)
     cov["transitions"] = max(cov["transitions"], 1)
